@@ -18,14 +18,14 @@ import (
 const repoModule = "github.com/facebookincubator/tacquito"
 
 type Loaded struct {
-	prog     *ssa.Program
-	pkgs     []*packages.Package
-	byPath   map[string]*ssa.Package
-	overlay  map[string][]byte // virtual path in /repo -> content
-	repo     string
-	harness  string
-	apiPkgs  map[string]string // package dir (relative) -> package name
-	sizes    types.Sizes
+	prog    *ssa.Program
+	pkgs    []*packages.Package
+	byPath  map[string]*ssa.Package
+	overlay map[string][]byte // virtual path in /repo -> content
+	repo    string
+	harness string
+	apiPkgs map[string]string // package dir (relative) -> package name
+	sizes   types.Sizes
 }
 
 // collectOverlay maps /verif/harness/<rel>/zz_vp_*.go onto /repo/<rel>/zz_vp_*.go and adds the
